@@ -12,7 +12,7 @@ def utc(ms):
 
 def make_region(region, mags=None):
     from csep.core import regions
-    m = None if mags is None else numpy.array(mags['edges'], dtype=float)
+    m = None if mags is None else numpy.array(mags['edges'], dtype=int if mags.get('int') else float)
     if region['kind'] == 'cart' and region.get('mask'):
         from csep.models import Polygon
         origins = numpy.array(region['origins'], dtype=float)
@@ -85,7 +85,7 @@ def make_gridded(world, rates=None, name='simfore'):
     """GriddedForecast on the world's region with literal rates (n_cells x n_mags)."""
     from csep.core.forecasts import GriddedForecast
     region = make_region(world['region'], world['mags'])
-    data = numpy.array(world['rates'] if rates is None else rates, dtype=float)
+    data = numpy.array(world['rates'] if rates is None else rates, dtype=world.get('rates_dtype', 'float64'))
     # memory layout is a delivery detail: the same logical array may arrive Fortran-ordered or as a transposed view
     layout = world.get('layout', 'C')
     if layout == 'F':
@@ -94,6 +94,7 @@ def make_gridded(world, rates=None, name='simfore'):
         data = numpy.ascontiguousarray(data.T).T
     fc = GriddedForecast(start_time=utc(world.get('start_ms', gen.T0_MS)).replace(tzinfo=None),
                          end_time=utc(world.get('end_ms', gen.T0_MS + gen.YEAR_MS)).replace(tzinfo=None),
-                         data=data, region=region, magnitudes=numpy.array(world['mags']['edges'], dtype=float),
-                         name=name)
+                         data=data, region=region,
+                         magnitudes=numpy.array(world['mags']['edges'], dtype=int if world['mags'].get('int') else float),
+                         name=None if world.get('unnamed') else name)
     return fc
